@@ -924,10 +924,16 @@ def replay(ctx, data):
         if r['answers'] != 1: return False
         if i['request'] == 'returns': return r['exit'] == 0 and r['state'] == 'DONE' and r['val'] == 40 + i['n']
         return r['exit'] != 0 and r['state'] == 'FAILED' and r['exc'] and not r['held']
+    if i['kind'] == 'target':
+        e = i['op']['exit']
+        got = [run_target(rp, e, True)] + ([run_target(rp, None, False)] if e is None else [])
+        want = 'DONE' if e == 0 else 'FAILED'
+        print('exit code', e, '->', got)
+        return all(g == want for g in got)
     if i['kind'] == 'fwd':
         r = run_fwd(rp, i['ops']); bad = fwd_monitor(i['ops'], r, i['n']); print(r, bad); return not bad
     if i['kind'] == 'alloc':
         r, live = run_alloc(rp, i['op']['ncores'], i['op']['ngpus'], i['op']['ops'])
         bad = alloc_monitor(i['op']['ops'], r); print(r); print(bad)
         return not bad
-    return False
+    raise NotImplementedError('replay: unknown kind %r' % i.get('kind'))
